@@ -120,8 +120,9 @@ def normalise(res):
 
 
 # ------------------------------------------------------------------ UnpackArgs domain
-TYPES = ["Value", "string", "bool", "int", "Int", "List", "Dict", "Callable", "Iterable", "Unpacker"]
-ARGS = ["none", "true", "int7", "int9", "big", "str", "list", "tuple", "dict", "fn", "float"]
+TYPES = ["Value", "string", "bool", "int", "Int", "List", "Dict", "Callable", "Iterable", "Unpacker",
+         "String", "Bytes", "Float", "Bool", "Tuple"]      # (the last five: variables of a concrete Starlark type)
+ARGS = ["none", "true", "int7", "int9", "big", "str", "list", "tuple", "dict", "fn", "float", "bytes"]
 
 
 def unpack_cases(ctx, rnd):
